@@ -218,6 +218,34 @@ func TestC12(t *testing.T) {
 	iter := 0
 	res := c.Rapid("determinism", c.N(300, 6000), 0, func(rt *rapid.T) {
 		m := genMulti(rt, c, multiOpts{maxFiles: 3, allowNoID: true, allowDupID: true, bigMaps: true, yamlFiles: true, hostileText: false})
+		if rapid.IntRange(0, 2).Draw(rt, "undeclaredrequired") == 0 {
+			// envelope-like objects: additionalProperties open (true or a schema) and 6-8 names in
+			// "required" that have no entry under "properties" (legal; with that many a map-ordered
+			// traversal shows in nearly every run)
+			names := []string{"apiVersion", "kind", "metadata", "spec", "status", "zowner", "zregion", "ztrace"}
+			k := rapid.IntRange(6, 8).Draw(rt, "nundeclared")
+			add := func(n *model.Node) {
+				if n.Kind != model.KObject {
+					return
+				}
+				if n.Additional == nil {
+					n.Additional = &model.Additional{Schema: &model.Node{Kind: model.KAny, AnyAsTrue: true}}
+				}
+				if n.Additional.False {
+					return
+				}
+				for _, nm := range names[:k] {
+					if n.Prop(nm) == nil && !n.IsRequired(nm) {
+						n.Required = append(n.Required, nm)
+					}
+				}
+			}
+			add(m.files[0].Root)
+			for _, d := range m.files[0].Defs {
+				add(d.Node)
+			}
+			c.Count("shape.undeclared_required_names_with_open_additional")
+		}
 		sc := rapid.IntRange(0, 9).Draw(rt, "scenario")
 		switch sc {
 		case 0, 1:
